@@ -27,112 +27,19 @@ pub const FACTORY_CREATION_FEE: u128 = 5_000_000_000;
 pub const WL_MINT_PRICE: u128 = 66_000_000;
 pub const DAY_NS: u64 = 86_400_000_000_000;
 
-/// The airdrop world's stargate keeper.  `strict` = chain.rs's PoolKeeper (the message's
-/// sender field must be the calling contract, as wasmd enforces); not strict = the
-/// repo's own test keeper (sender field ignored).  sg-eth-airdrop's instantiate names the
-/// *instantiating user* in its MsgFundFairburnPool, so under the strict keeper no airdrop
-/// can be instantiated at all; `build` tries strict first and falls back, leaving a note.
-pub struct AirdropKeeper {
-    pub strict: bool,
-}
-impl Stargate for AirdropKeeper {}
-impl Module for AirdropKeeper {
-    type ExecT = StargateMsg;
-    type QueryT = StargateQuery;
-    type SudoT = Empty;
-    fn execute<ExecC, QueryC>(
-        &self,
-        api: &dyn Api,
-        storage: &mut dyn Storage,
-        router: &dyn CosmosRouter<ExecC = ExecC, QueryC = QueryC>,
-        block: &BlockInfo,
-        sender: Addr,
-        msg: Self::ExecT,
-    ) -> AnyResult<AppResponse>
-    where
-        ExecC: CustomMsg + DeserializeOwned + 'static,
-        QueryC: CustomQuery + DeserializeOwned + 'static,
-    {
-        if msg.type_url != crate::util::FUND_POOL_URL {
-            bail!("stargate not implemented: {}", msg.type_url)
-        }
-        let Some((msg_sender, denom, amount)) = crate::util::decode_fund_fairburn_pool(msg.value.as_slice()) else {
-            bail!("MsgFundFairburnPool does not decode")
-        };
-        if self.strict && msg_sender != sender.as_str() {
-            bail!("{}: {} vs {}", SIGNER_MISMATCH, msg_sender, sender)
-        }
-        let send = BankMsg::Send { to_address: chain::FAIRBURN_POOL.to_owned(), amount: coins(amount, denom) }.into();
-        match router.execute(api, storage, block, sender, send) {
-            Ok(_) => Ok(AppResponse::default()),
-            Err(e) => bail!("Error executing fairburn pool funding: {}", e),
-        }
-    }
-    fn sudo<ExecC, QueryC>(
-        &self,
-        _api: &dyn Api,
-        _storage: &mut dyn Storage,
-        _router: &dyn CosmosRouter<ExecC = ExecC, QueryC = QueryC>,
-        _block: &BlockInfo,
-        _msg: Self::SudoT,
-    ) -> AnyResult<AppResponse>
-    where
-        ExecC: CustomMsg + DeserializeOwned + 'static,
-        QueryC: CustomQuery + DeserializeOwned + 'static,
-    {
-        Ok(AppResponse::default())
-    }
-    fn query(
-        &self,
-        _api: &dyn Api,
-        _storage: &dyn Storage,
-        _querier: &dyn Querier,
-        _block: &BlockInfo,
-        _request: Self::QueryT,
-    ) -> AnyResult<Binary> {
-        Ok(Binary::default())
-    }
-}
-pub const SIGNER_MISMATCH: &str = "MsgFundFairburnPool sender is not the calling contract";
-
-pub type App = cw_multi_test::App<
-    BankKeeper,
-    MockApi,
-    MockStorage,
-    FailingModule<Empty, Empty, Empty>,
-    WasmKeeper<Empty, Empty>,
-    cw_multi_test::StakeKeeper,
-    cw_multi_test::DistributionKeeper,
-    FailingModule<cosmwasm_std::IbcMsg, cosmwasm_std::IbcQuery, Empty>,
-    FailingModule<cosmwasm_std::GovMsg, Empty, Empty>,
-    AirdropKeeper,
->;
-fn new_app(strict: bool) -> App {
-    let mut app = AppBuilder::default().with_stargate(AirdropKeeper { strict }).build(no_init);
-    let mut b = app.block_info();
-    b.time = Timestamp::from_nanos(chain::GENESIS_NS + 1_000_000_000);
-    b.height += 1;
-    app.set_block(b);
-    app
-}
+pub use crate::chain::App;
 fn mint_coins(app: &mut App, to: &str, amount: u128, denom: &str) {
-    app.sudo(SudoMsg::Bank(BankSudo::Mint { to_address: to.to_string(), amount: coins(amount, denom) })).unwrap();
+    chain::mint_coins(app, to, amount, denom)
 }
 fn bank_balance(app: &App, who: &str, denom: &str) -> u128 {
-    app.wrap().query_balance(who, denom).map(|c: Coin| c.amount.u128()).unwrap_or(0)
+    chain::balance(app, who, denom)
 }
 fn storage_digest(app: &App, addr: &Addr) -> String {
-    use sha2::{Digest, Sha256};
-    let st = app.contract_storage(addr);
-    let mut h = Sha256::new();
-    for (k, v) in st.range(None, None, cosmwasm_std::Order::Ascending) {
-        h.update((k.len() as u64).to_be_bytes());
-        h.update(&k);
-        h.update((v.len() as u64).to_be_bytes());
-        h.update(&v);
-    }
-    hex::encode(h.finalize())
+    chain::storage_digest(app, addr)
 }
+/// what chain.rs's keeper says when a MsgFundFairburnPool names somebody else than the
+/// emitting contract as sender (sg-eth-airdrop's instantiate did, before fix d25169f)
+pub const SIGNER_MISMATCH: &str = "is not the calling contract";
 
 /// What a world is built from.  Everything the property quantifies over at world level.
 #[derive(Clone, Debug, serde::Serialize, serde::Deserialize, PartialEq, Eq)]
@@ -183,6 +90,9 @@ pub struct World {
     pub airdrop: Addr,
     /// the whitelist-immutable the airdrop created (read back from its CONFIG)
     pub immutable_wl: Addr,
+    /// what the airdrop's instantiate burned / sent to the fair-burn pool
+    pub fee_burned: u128,
+    pub fee_pooled: u128,
 }
 
 /// Result of trying to build a world: instantiate of the airdrop may be rejected (that is
@@ -192,17 +102,8 @@ pub enum Built {
     AirdropRejected { err: String, creator_paid: u128 },
 }
 
-/// strict keeper first; if (and only if) the airdrop's instantiate trips the signer check,
-/// the same world under the lenient keeper.  `lenient_used` tells which.
-pub fn build(spec: &WorldSpec) -> (Built, bool) {
-    match build_with(spec, true) {
-        Built::AirdropRejected { err, .. } if err.contains(SIGNER_MISMATCH) => (build_with(spec, false), true),
-        b => (b, false),
-    }
-}
-
-pub fn build_with(spec: &WorldSpec, strict: bool) -> Built {
-    let mut app = new_app(strict);
+pub fn build(spec: &WorldSpec) -> Built {
+    let mut app = chain::new_app();
     mint_coins(&mut app, CREATOR, 1_000_000_000_000_000_000, NATIVE);
     let now = app.block_info().time.nanos();
     let start = chain::GENESIS_NS + 10 * DAY_NS;
@@ -313,6 +214,7 @@ pub fn build_with(spec: &WorldSpec, strict: bool) -> Built {
     let airdrop_code = app.store_code(chain::eth_airdrop());
     let wi_code = app.store_code(chain::whitelist_immutable());
     let before = bank_balance(&app, CREATOR, NATIVE);
+    let pool_before = bank_balance(&app, chain::FAIRBURN_POOL, NATIVE);
     let msg = sg_eth_airdrop::msg::InstantiateMsg {
         admin: Addr::unchecked(CREATOR),
         claim_msg_plaintext: spec.template.clone(),
@@ -337,6 +239,11 @@ pub fn build_with(spec: &WorldSpec, strict: bool) -> Built {
             return Built::AirdropRejected { err: p, creator_paid: before - after };
         }
     };
+    // cw-multi-test's bank has no supply query: what the creator paid and neither the
+    // contract nor the pool holds has been burned
+    let fee_pooled = bank_balance(&app, chain::FAIRBURN_POOL, NATIVE) - pool_before;
+    let creator_paid = before - bank_balance(&app, CREATOR, NATIVE);
+    let fee_burned = creator_paid.saturating_sub(bank_balance(&app, airdrop.as_str(), NATIVE)).saturating_sub(fee_pooled);
     let cfg = sg_eth_airdrop::state::CONFIG.load(&*app.contract_storage(&airdrop)).expect("airdrop config");
     let immutable_wl = Addr::unchecked(cfg.whitelist_address.expect("reply stored the whitelist address"));
     if spec.top_up > 0 {
@@ -351,7 +258,7 @@ pub fn build_with(spec: &WorldSpec, strict: bool) -> Built {
         )
         .expect("whitelist admins updated");
     }
-    Built::Ok(World { app, spec: spec.clone(), factory, minter, collection_wl, airdrop, immutable_wl })
+    Built::Ok(World { app, spec: spec.clone(), factory, minter, collection_wl, airdrop, immutable_wl, fee_burned, fee_pooled })
 }
 
 impl World {
